@@ -74,7 +74,7 @@ def handleStack (case : Nat) (j : Json) : IO Unit := do
     if jisNull e then (false, true, s!"no echo: status {jnat (jget r "status")} err {jstr (jget r "err")} target {jstr (jget r "target")}") else
     let sent : Req := { method := jstr (jget r "method"), path := jstr (jget r "rest"), query := jstr (jget r "query"), body := (jstr (jget r "sha")).toUTF8.toList }
     let got : Req := { method := jstr (jget e "method"), path := jstr (jget e "path"), query := jstr (jget e "query"), body := (jstr (jget e "sha")).toUTF8.toList }
-    let ok := arrivedIntact sent base got && jnat (jget e "len") == jnat (jget r "len") && jstr (jget e "xmodel") == jstr (jget r "model")
+    let ok := arrivedIntact sent base got && jnat (jget e "len") == jnat (jget r "len") && (jstr (jget r "model") == "*" || jstr (jget e "xmodel") == jstr (jget r "model"))
     (ok, ok, s!"sent {jstr (jget r "method")} {jstr (jget r "target")} body {jnat (jget r "len")}B sha {(jstr (jget r "sha")).take 12} model '{jstr (jget r "model")}'; backend got {jstr (jget e "method")} {jstr (jget e "path")}?{jstr (jget e "query")} body {jnat (jget e "len")}B sha {(jstr (jget e "sha")).take 12} X-Model '{jstr (jget e "xmodel")}'"))
   let agree := checked.all (·.1)
   let spec := checked.all (·.2.1)
